@@ -165,3 +165,62 @@ package sqlx
 //@ func (*commonConn).queryRows$1$1
 //@   prop C01, C11
 //@   ensures [records-scan-verdict] calls(scanner, rows) == 1 && scanErr == ret(scanner) && result == ret(scanner)
+
+// ---------------- writes, prepare and transactions under the connection's breaker (C01, C11) ----------------
+// Every database call of a connection runs under its breaker, judged by acceptable(); a failure to obtain the
+// connection is reported to onError and returned without touching the database.
+//@ func (*commonConn).ExecCtx
+//@   prop C01, C11
+//@   opaque startSpan, endSpan, Inc
+//@   ensures [under-breaker-with-acceptable] calls(db.brk.DoWithAcceptable) == 1 && err == ret(DoWithAcceptable)
+//@ func (*commonConn).ExecCtx$2
+//@   prop C01, C11
+//@   opaque exec, onError
+//@   ensures [no-connection] ret(db.provider, 1) != nil ==> result == ret(db.provider, 1) && calls(exec) == 0 && calls(db.onError, ret(db.provider, 1)) == 1
+//@   ensures [executed-once-on-the-connection] ret(db.provider, 1) == nil ==> calls(exec) == 1 && arg(exec, 0) == ctx && unbox(arg(exec, 1), ptr(sql.DB)) == ret(db.provider, 0) && arg(exec, 2) == query && arg(exec, 3) == args && result == ret(exec, 1)
+//@ func (*commonConn).TransactCtx
+//@   prop C01, C11
+//@   opaque startSpan, endSpan, Inc
+//@   ensures [under-breaker-with-acceptable] calls(db.brk.DoWithAcceptable) == 1 && err == ret(DoWithAcceptable)
+//@ func (*commonConn).TransactCtx$2
+//@   prop C01, C11
+//@   opaque transact
+//@   ensures [transaction-on-this-connection] calls(transact) == 1 && arg(transact, 0) == ctx && arg(transact, 1) == db && arg(transact, 2) == db.beginTx && arg(transact, 3) == fn && result == ret(transact)
+//@ func (*commonConn).Transact$1
+//@   prop C11
+//@   ensures [callers-function-on-the-session] calls(fn, session) == 1 && result == ret(fn)
+//@ func transact
+//@   prop C11
+//@   opaque transactOnConn, onError
+//@   requires db != nil
+//@   ensures [no-connection] ret(db.provider, 1) != nil ==> err == ret(db.provider, 1) && calls(transactOnConn) == 0 && calls(db.onError, ret(db.provider, 1)) == 1
+//@   ensures [on-the-connection] ret(db.provider, 1) == nil ==> calls(transactOnConn) == 1 && arg(transactOnConn, 0) == ctx && arg(transactOnConn, 1) == ret(db.provider, 0) && arg(transactOnConn, 2) == b && arg(transactOnConn, 3) == fn && err == ret(transactOnConn)
+//@ func begin
+//@   prop C11
+//@   ensures [begin-error] ret(db.Begin, 1) != nil ==> result1 == ret(db.Begin, 1) && result0 == nil
+//@   ensures [session-on-the-new-transaction] ret(db.Begin, 1) == nil ==> result1 == nil && typeis(result0, txSession) && unbox(result0, txSession).Tx == ret(db.Begin, 0)
+// exec / execStmt: refused by the guard => nothing executed; otherwise the statement is executed once with the
+// caller's context and arguments and its result and error are returned as they are.
+//@ func exec
+//@   prop C11, C01
+//@   opaque newGuard, start, finish
+//@   ensures [refused] ret(start) != nil ==> result1 == ret(start) && result0 == nil && calls(ExecContext) == 0
+//@   ensures [executed-once] ret(start) == nil ==> calls(conn.ExecContext) == 1 && arg(conn.ExecContext, 0) == ctx && arg(conn.ExecContext, 1) == query && arg(conn.ExecContext, 2) == args && result0 == ret(ExecContext, 0) && result1 == ret(ExecContext, 1)
+//@ func execStmt
+//@   prop C11
+//@   opaque newGuard, start, finish
+//@   ensures [refused] ret(start) != nil ==> result1 == ret(start) && result0 == nil && calls(ExecContext) == 0
+//@   ensures [executed-once] ret(start) == nil ==> calls(conn.ExecContext) == 1 && arg(conn.ExecContext, 0) == ctx && arg(conn.ExecContext, 1) == args && result0 == ret(ExecContext, 0) && result1 == ret(ExecContext, 1)
+//@ func queryStmt
+//@   prop C11
+//@   opaque newGuard, start, finish
+//@   may-panic scanner
+//@   ensures [refused] ret(start) != nil ==> result == ret(start) && calls(QueryContext) == 0 && calls(scanner) == 0
+//@   ensures [query-error] ret(start) == nil && ret(QueryContext, 1) != nil ==> result == ret(QueryContext, 1) && calls(scanner) == 0
+//@   ensures [scanned-once-and-closed] ret(start) == nil && ret(QueryContext, 1) == nil ==> calls(scanner, ret(QueryContext, 0)) == 1 && result == ret(scanner) && calls(Close) == 1 && before(scanner, Close)
+//@   panic-ensures [closed-on-panic] calls(Close) == 1
+// The transaction's own statements go to the transaction (not to the pool).
+//@ func (txSession).ExecCtx
+//@   prop C11
+//@   opaque startSpan, endSpan, exec
+//@   ensures [on-the-transaction] calls(exec) == 1 && arg(exec, 2) == query && arg(exec, 3) == args && unbox(arg(exec, 1), ptr(sql.Tx)) == t.Tx && result == ret(exec, 0) && err == ret(exec, 1)
